@@ -5,6 +5,7 @@ package main
 // codecs).
 
 import (
+	"bytes"
 	"encoding/hex"
 	"fmt"
 	"iter"
@@ -28,12 +29,48 @@ type treeDrv interface {
 	Seq(tag string, args []string) iter.Seq2[string, int]
 	Dump() string
 	Raw() any
+	TakeAlias() []string
+	SetTrack(on bool)
 }
 
 type adapter[K any] struct {
 	t     art.Tree[K, int]
 	parse func(string) K
 	show  func(K) string
+	// per tree (the race leg runs many sessions at once): observations "a returned key changed afterwards",
+	// and the last few []byte keys the tree handed out
+	alias   []string
+	yielded *yieldRing
+	untracked bool // shared by concurrent readers (race leg): the adapter itself must not write anything
+}
+
+func (a *adapter[K]) SetTrack(on bool) { a.untracked = !on }
+
+type yieldRing struct {
+	keys [8][]byte
+	turn int
+}
+
+func (y *yieldRing) aliasOf(b []byte) []byte {
+	if y == nil {
+		return nil
+	}
+	for _, k := range y.keys {
+		if len(k) > len(b) && len(b) > 0 && bytes.Equal(k[:len(b)], b) {
+			return k[:len(b)]
+		}
+	}
+	return nil
+}
+
+// TakeAlias returns and clears the observations collected since the last call
+func (a *adapter[K]) TakeAlias() []string {
+	if a.untracked {
+		return nil
+	}
+	r := a.alias
+	a.alias = nil
+	return r
 }
 
 func (a *adapter[K]) Insert(key string, v int)      { a.t.Insert(a.parse(key), v) }
@@ -50,6 +87,14 @@ func (a *adapter[K]) Max() (string, int, bool) {
 	k, v, ok := a.t.Maximum()
 	if !ok {
 		return "", 0, false
+	}
+	// Minimum's key must still read the same after Maximum was called
+	if k0, _, ok0 := a.t.Minimum(); ok0 && !a.untracked {
+		before := a.show(k0)
+		a.t.Maximum()
+		if now := a.show(k0); now != before {
+			a.alias = append(a.alias, fmt.Sprintf("MAX: the key returned by Minimum() was %s and reads %s after Maximum()", before, now))
+		}
 	}
 	return a.show(k), v, true
 }
@@ -83,9 +128,31 @@ func (a *adapter[K]) Seq(tag string, args []string) iter.Seq2[string, int] {
 		panic("bad seq tag " + tag)
 	}
 	return func(yield func(string, int) bool) {
-		s(func(k K, v int) bool { return yield(a.show(k), v) })
+		// the keys handed to the consumer are kept and looked at again when the pass is over: a key that
+		// reads differently then was returned in storage that later yields (or the tree) overwrite
+		var ks []K
+		var shown []string
+		s(func(k K, v int) bool {
+			str := a.show(k)
+			if len(ks) < 4096 {
+				ks, shown = append(ks, k), append(shown, str)
+			}
+			if kb, ok := any(k).([]byte); ok && len(kb) > 1 && a.yielded != nil && !a.untracked {
+				a.yielded.keys[a.yielded.turn%len(a.yielded.keys)] = kb
+				a.yielded.turn++
+			}
+			return yield(str, v)
+		})
+		for i := range ks {
+			if now := a.show(ks[i]); now != shown[i] && !a.untracked {
+				a.alias = append(a.alias, fmt.Sprintf("%s: key number %d was yielded as %s and reads %s after the pass", tag, i, shown[i], now))
+				break
+			}
+		}
 	}
 }
+
+
 
 // ---- key text formats ---------------------------------------------------------
 
@@ -170,7 +237,19 @@ func newTree(kind, variant string) treeDrv {
 	case kind == "alpha":
 		if variant == "bytes" {
 			// in -buf mode (C13) the key is a sub-slice of a sentinel-filled, reused caller buffer
-			return numDrv(art.NewAlphaSortedTree[[]byte, int](), func(s string) []byte { return bufKey(xbytes(s)) }, xhex)
+			// a key that is a proper prefix of a key the tree yielded recently is passed as a RE-SLICE of that
+			// yielded key (what a caller walking "parent directories" of returned keys does): its spare capacity
+			// is the tree's own storage
+			ring := &yieldRing{}
+			d := numDrv(art.NewAlphaSortedTree[[]byte, int](), func(s string) []byte {
+				b := xbytes(s)
+				if a := ring.aliasOf(b); a != nil {
+					return a
+				}
+				return bufKey(b)
+			}, xhex)
+			d.(*adapter[[]byte]).yielded = ring
+			return d
 		}
 		return numDrv(art.NewAlphaSortedTree[string, int](),
 			func(s string) string { return string(xbytes(s)) }, func(k string) string { return xhex([]byte(k)) })
